@@ -23,7 +23,7 @@ import (
 func init() {
 	core.Register(&core.Simple{
 		Id: "C08", Lvl: "exploration", Quick: 640, Thorough: 20000, PerBatch: 160, Width: 160, Timeout: 1800,
-		RuleText: "each case downloads one generated file (sizes 0,1,2,511,512,513,32767,32768,32769,65536,1 MiB and random, thorough up to 16 MiB; names over ASCII and Mac-Roman high bytes, in the root or a sub-folder (an eighth of the requests name the folder by a path of 250-300 items); with/without stored info and resource forks; in a sixth of the cases a stale '<name>.incomplete' of an interrupted upload sits next to the complete file) in one mode: full (a few of them read by a peer with a 32 KiB window that stalls for 11 s mid-transfer), resume at k in {0,1,size/2,size-1,size,random}, or preview (the option sent as a 2-byte or a 4-byte integer); the request goes through the real connection loop, the transfer through the real handleFileTransfer; a reference client reads the whole stream until the handler returns and a reference parser checks header consistency, exactly file[k:], resource fork framing, and the reply's size fields. a TCP batch runs the real ServeFileTransfers accept loop with two overlapping downloads (a short one accepted first, a long one read slowly that outlives the first handler). distinct = (size class, mode, forks, name class); non-trivial = size > 0",
+		RuleText: "each case downloads one generated file (sizes 0,1,2,511,512,513,32767,32768,32769,65536,1 MiB and random, thorough up to 16 MiB; names over ASCII and Mac-Roman high bytes, in the root or a sub-folder (an eighth of the requests name the folder by a path of 250-300 items); with/without stored info and resource forks (comments up to 40 KB); in a sixth of the cases a stale '<name>.incomplete' of an interrupted upload sits next to the complete file) in one mode: full (a few of them read by a peer with a 32 KiB window that stalls for 11 s mid-transfer), resume at k in {0,1,size/2,size-1,size,random}, or preview (the option sent as a 2-byte or a 4-byte integer); the request goes through the real connection loop, the transfer through the real handleFileTransfer; a reference client reads the whole stream until the handler returns and a reference parser checks header consistency, exactly file[k:], resource fork framing, and the reply's size fields. a TCP batch runs the real ServeFileTransfers accept loop with two overlapping downloads (a short one accepted first, a long one read slowly that outlives the first handler). distinct = (size class, mode, forks, name class); non-trivial = size > 0",
 		Case:     runCase,
 		Extra: func(tier string, seed int64) []core.Batch {
 			n := 3
@@ -208,6 +208,10 @@ func runCase(c *core.Case) {
 	}
 	if forks == "info" || forks == "info+rsrc" {
 		comment = r.Printable(r.Intn(200))
+		if r.Chance(1, 5) {
+			// long comments: the header then exceeds the 512-byte and, for the longest, the 32 KiB read sizes
+			comment = r.Printable(core.Pick(r, []int{374, 600, 5000, 33000, 40000}))
+		}
 	}
 	stalePartial := r.Chance(1, 6)
 	if stalePartial {
